@@ -61,13 +61,15 @@ contract(B + 'convert.validate_and_convert', P, pure=True, returns='Expression',
 contract(B + 'unary_expressions.UnaryOperator.__init__', P, exact_self=False,
          modifies=_EXPR_FIELDS + ['self.child'],
          raises={'TypeError': 'not isinstance(child, (int, float, bool)) and not isinstance(child, Expression)'},
-         ensures={'child': 'c05c_val(self.child) == c05c_num(child)'})
+         ensures={'child': 'c05c_val(self.child) == c05c_num(child)',
+                  'child_identity': 'implies(isinstance(child, Expression), self.child is child)'})
 for cls, sem in (('exp', "app('numpy.exp', c05c_num(child))"), ('log', "app('numpy.log', c05c_num(child))"),
                  ('logzero', "ite(c05c_num(child) == 0, 0, app('numpy.log', c05c_num(child)))")):
     contract(B + f'unary_expressions.{cls}.__init__', P,
              modifies=_EXPR_FIELDS + ['self.child'],
              raises={'TypeError': 'not isinstance(child, (int, float, bool)) and not isinstance(child, Expression)'},
-             ensures={'value': f'c05c_val(self) == {sem}'})
+             ensures={'value': f'c05c_val(self) == {sem}',
+                      'child_identity': 'implies(isinstance(child, Expression), self.child is child)'})
 
 _NOT_OPERAND = 'not isinstance({0}, (int, float, bool)) and not isinstance({0}, Expression)'
 contract(B + 'binary_expressions.BinaryOperator.__init__', P, exact_self=False,
@@ -156,14 +158,19 @@ _F_AV = (f"ite(NODE.av[{_F_KEY}].get_value() != 0.0, "
 _A_AV = (f"av is not None and {_CH} in util and {_CH} in av and {_SAME} and "
          f"c05c_val(typed(av, 'dict[int, Expression]')[{_CH}]) != 0.0")
 _A_FULL = f"av is None and {_CH} in util"
+_S_NODE = f"sum_range(lambda q: {_F_AV}, 0, len(NODE.util))"
 LOGLOGIT_ENSURES = {
     'kernel': f"c05c_cut('kernel:terms-agree', lambda: implies({_A_AV}, "
               f"forall(lambda q: {_F_AV} == {_T_AV}, 0, len(util)))) and "
+              f"c05c_cut('kernel:sums-agree', lambda: implies({_A_AV}, "
+              f"{_S_NODE} == sum_range(lambda q: {_T_AV}, 0, len(util)))) and "
               f"implies({_A_AV}, c05c_val(NODE) == -app('numpy.log', sum_range(lambda q: {_T_AV}, 0, len(util))))",
     'unavailable_choice': f"implies(av is not None and {_CH} in util and {_CH} in av and {_SAME} and "
                           f"c05c_val(typed(av, 'dict[int, Expression]')[{_CH}]) == 0.0, c05c_val(NODE) == -c05c_inf())",
     'kernel_full_choice_set': f"c05c_cut('kernel_full:terms-agree', lambda: implies({_A_FULL}, "
                               f"forall(lambda q: {_F_AV} == {_T_FULL}, 0, len(util)))) and "
+                              f"c05c_cut('kernel_full:sums-agree', lambda: implies({_A_FULL}, "
+                              f"{_S_NODE} == sum_range(lambda q: {_T_FULL}, 0, len(util)))) and "
                               f"implies({_A_FULL}, c05c_val(NODE) == -app('numpy.log', sum_range(lambda q: {_T_FULL}, 0, len(util))))",
 }
 _UTIL_COPIED = ('len(self.util) == len(util) and forall(lambda q: list(self.util)[q] == list(util)[q] and '
@@ -181,14 +188,24 @@ _KEPT = ("len(util) == old(len(util)) and implies(av is not None, len(typed(av, 
 _UTIL_BY_KEY = "forall(lambda x: implies(x in util, self.util[x] is util[x]), ty='int')"
 _AV_BY_KEY = f"implies(av is not None, forall(lambda x: implies(x in {_AVD}, self.av[x] is {_AVD}[x]), ty='int'))"
 _AV_ONES_BY_KEY = "implies(av is None, forall(lambda x: implies(x in util, c05c_val(self.av[x]) == 1), ty='int'))"
-_INV = {'util_copied': _UTIL_COPIED, 'av_copied': _AV_COPIED, 'av_ones': _AV_ONES, 'choice': _CHOICE,
-        'util_by_key': _UTIL_BY_KEY, 'av_by_key': _AV_BY_KEY, 'av_ones_by_key': _AV_ONES_BY_KEY}
+_AV_DOM = (f"implies(av is not None, forall(lambda x: (x in self.av) == (x in {_AVD}), ty='int')) and "
+           "implies(av is None, forall(lambda x: (x in self.av) == (x in util), ty='int'))")
+# the same facts in the shape of the kernel terms (one instantiation per position)
+_UTIL_POS = 'forall(lambda q: self.util[list(self.util)[q]] is util[list(util)[q]], 0, len(util))'
+_AV_POS = (f"implies(av is not None, forall(lambda q: implies(list(util)[q] in {_AVD}, "
+           f"self.av[list(self.util)[q]] is {_AVD}[list(util)[q]]), 0, len(util)))")
+_AV_ONES_POS = 'implies(av is None, forall(lambda q: c05c_val(self.av[list(self.util)[q]]) == 1, 0, len(util)))'
+_INV = {'util_pos': _UTIL_POS, 'av_pos': _AV_POS, 'av_ones_pos': _AV_ONES_POS, 'util_copied': _UTIL_COPIED, 'av_copied': _AV_COPIED, 'av_ones': _AV_ONES, 'choice': _CHOICE,
+        'util_by_key': _UTIL_BY_KEY, 'av_by_key': _AV_BY_KEY, 'av_ones_by_key': _AV_ONES_BY_KEY, 'av_dom': _AV_DOM}
+# what callers get: keys of util by position, values by key, domains (the positional facts about av stay loop invariants only)
+_ENS = {k: _INV[k] for k in ('util_copied', 'util_by_key', 'av_dom', 'av_by_key', 'av_ones_by_key', 'choice',
+                             'util_pos', 'av_pos', 'av_ones_pos')}
 contract(B + 'logit_expressions.LogLogit.__init__', P, exact_self=False,
          types={'util': 'dict[int, Expression]', 'av': 'dict[int, Expression] | None'},
          modifies=_EXPR_FIELDS + ['self.util', 'self.av', 'self.choice'],
          raises={'TypeError': _NOT_OPERAND.format('choice')},
          requires={'python_dict': 'c05c_dict_wf(av)'},
-         ensures=dict(_INV),
+         ensures=dict(_ENS),
          # the two construction paths (av None / given) are kept apart, each runs the two loops: ordinals 1-4
          invariants={k: {'clauses': dict(_INV)} for k in (1, 2, 3, 4)},
          note='dictionaries restricted to Expression values (numbers in the dictionaries: bounded translation validation only)')
@@ -198,5 +215,7 @@ contract(B + 'logit_expressions._bioLogLogitFullChoiceSet.__init__', P,
          types={'util': 'dict[int, Expression]'},
          modifies=_EXPR_FIELDS + ['self.util', 'self.av', 'self.choice'],
          raises={'TypeError': _NOT_OPERAND.format('choice')},
-         ensures={'util_copied': _UTIL_COPIED, 'av_ones': _AV_ONES.replace('implies(av is None, ', '(', 1), 'choice': _CHOICE,
-                  'util_by_key': _UTIL_BY_KEY, 'av_ones_by_key': _AV_ONES_BY_KEY.replace('implies(av is None, ', '(', 1)})
+         ensures={'util_copied': _UTIL_COPIED, 'choice': _CHOICE, 'util_by_key': _UTIL_BY_KEY,
+                  'av_dom': "forall(lambda x: (x in self.av) == (x in util), ty='int')",
+                  'av_ones_by_key': _AV_ONES_BY_KEY.replace('implies(av is None, ', '(', 1),
+                  'util_pos': _UTIL_POS, 'av_ones_pos': _AV_ONES_POS.replace('implies(av is None, ', '(', 1)})
